@@ -117,7 +117,10 @@ def _mk_alt(rng, dc):
         ov = [[n, _over(rng, n, 500 + d)] for n, d in dc["leaves"] if rng.random() < 0.6]
     elif kind == "inst":
         ov = [[n, _over(rng, n, 700 + d, 0.25)] for n, d in dc["leaves"]]
-    return {"kind": kind, "dc": dc, "ov": ov}
+    alt = {"kind": kind, "dc": dc, "ov": ov}
+    if kind in ("func", "pfunc") and rng.random() < 0.5:
+        alt["annot"] = "object"     # `-> K` (the class object) instead of `-> "K"`
+    return alt
 
 
 def _depth(dc):
@@ -406,7 +409,9 @@ def falsy_cases(rng, tier):
                 ["izero", alt("inst", A, [("x", 0), ("flag", 0), ("name", 0), ("ratio", 0), ("tags", 0), ("lr", 0)])],
                 ["plain", alt("type", A)],
                 ["fn", alt("func", A)],
-                ["pfn", alt("pfunc", A, [("x", 0), ("flag", 0), ("name", 2), ("lr", 8)])]]
+                ["pfn", alt("pfunc", A, [("x", 0), ("flag", 0), ("name", 2), ("lr", 8)])],
+                ["ofn", dict(alt("func", A), annot="object")],
+                ["opfn", dict(alt("pfunc", A, [("x", 0), ("ratio", 0), ("lr", 6)]), annot="object")]]
 
     def holder(name, default, leaves, field="hp"):
         return {"name": name, "leaves": [list(x) for x in leaves], "subs": [{"f": field, "default": default, "dkind": "key", "alts": table()}]}
@@ -536,10 +541,11 @@ def _alt_expr(alt):
     n = alt["dc"]["name"]
     if alt["kind"] == "type":
         return n
+    mk = ("mko_" if alt.get("annot") == "object" else "mk_") + n
     if alt["kind"] == "func":
-        return f"mk_{n}"
+        return mk
     if alt["kind"] in ("partial", "pfunc"):
-        fn = n if alt["kind"] == "partial" else f"mk_{n}"
+        fn = n if alt["kind"] == "partial" else mk
         return f"functools.partial({fn}, " + ", ".join(f"{k}={lit(k, v)}" for k, v in alt["ov"]) + ")"
     return _inst_expr(alt["dc"], dict(alt["ov"]))
 
@@ -560,7 +566,8 @@ def _sg_lines(sg):
 def source(tree):
     out = []
     _classes_postorder(tree, out, set())
-    fns = {a["dc"]["name"] for a in _alts(tree) if a["kind"] in ("func", "pfunc")}
+    fns = {a["dc"]["name"] for a in _alts(tree) if a["kind"] in ("func", "pfunc") and a.get("annot") != "object"}
+    ofns = {a["dc"]["name"] for a in _alts(tree) if a["kind"] in ("func", "pfunc") and a.get("annot") == "object"}
     lines = ["import functools", "from dataclasses import dataclass, field", "from typing import List, Union",
              "from simple_parsing import subgroups", ""]
     for dc in out:
@@ -579,6 +586,9 @@ def source(tree):
         if dc["name"] in fns:
             # the library reads the dataclass off the (string) return annotation, resolved in the declaring frame's globals
             lines += [f"def mk_{dc['name']}(**kw) -> \"{dc['name']}\":", f"    return {dc['name']}(**kw)", ""]
+        if dc["name"] in ofns:
+            # annotated with the class object itself (this text has no postponed annotations)
+            lines += [f"def mko_{dc['name']}(**kw) -> {dc['name']}:", f"    return {dc['name']}(**kw)", ""]
     return "\n".join(lines)
 
 
@@ -1233,7 +1243,8 @@ def to_coq(case, obs):
         toks = clist([cpair(cpair(cstr(t["o"]), cstr(t["v"])), copt(cpath(t["intent"])) if t["intent"] is not None else "None")
                       for t in obs["toks"]])
         reg = copt(clist([cpath(d) for d, _ in obs["table"]])) if obs["setup_done"] else "None"
-        return (f"SgCase {cdc(case['tree'])} {cstr(ROOT)} {tb} {toks} {cbool(_loose(case, obs))} {_cobs(o, True)} {reg} "
+        objannot = any(a.get("annot") == "object" for a in _alts(case["tree"]))
+        return (f"SgCase {cdc(case['tree'])} {cstr(ROOT)} {tb} {toks} {cbool(_loose(case, obs))} {cbool(objannot)} {_cobs(o, True)} {reg} "
                 f"{cbool(obs['stable'])} {extra}")
     table = clist([cpair(cstr(m[0].lower()), cpair(cstr(m[0]), cleaves(m[1]))) for m in case["members"]])
     cf = f"(mkcmd {cstr(case['field'])} {table} {copt(cstr(case['default'].lower())) if case['default'] is not None else 'None'})"
